@@ -900,6 +900,37 @@ func extractMisc() {
 		emit("/-- internal/core pipeIDAllocator: every write of the counter -/\n")
 		emit("def allocCounterWrites : List String := %s\n", leanStrList(writers))
 	}
+	// what a new context takes over from the socket's own (default) context: the composite literal in OpenContext
+	{
+		rows := []string{}
+		for _, pk := range []string{"protocol/rep", "protocol/req", "protocol/respondent", "protocol/sub", "protocol/surveyor"} {
+			p := loadPkg(pk)
+			fd := p.fn("socket", "OpenContext")
+			if fd == nil {
+				unrec(pk+":socket.OpenContext", "function not found")
+				continue
+			}
+			ast.Inspect(fd, func(x ast.Node) bool {
+				cl, ok := x.(*ast.CompositeLit)
+				if !ok || exprString(cl.Type) != "context" {
+					return true
+				}
+				for _, el := range cl.Elts {
+					kv, ok := el.(*ast.KeyValueExpr)
+					if !ok {
+						continue
+					}
+					v := exprString(kv.Value)
+					if strings.HasPrefix(v, "s.master.") || strings.HasPrefix(v, "s.defCtx.") {
+						rows = append(rows, pk+": "+exprString(kv.Key)+"="+v)
+					}
+				}
+				return false
+			})
+		}
+		emit("/-- OpenContext: the settings a new context takes over from the socket's own context -/\n")
+		emit("def openContextCopies : List String := %s\n", leanStrList(rows))
+	}
 	// which Send paths take a private copy before they change a message they were given (Message.MakeUnique)
 	{
 		sites := []string{}
